@@ -512,6 +512,25 @@ theorem eval_reroot (cfg : Cfg) (π' : Path) : ∀ (fuel : Nat) (p : SProg) (ρ 
                   obtain ⟨t3, e2, hr3⟩ := finishCall_reroot hr2 hf
                   exact ⟨t3, by simp [eval, hk, he, e1, e2], hr3⟩
 
+    | nested body m V a =>
+      simp only [eval] at h ⊢
+      cases he : evalE x l.env a with
+      | error err => simp [he] at h
+      | ok av =>
+        simp only [he] at h ⊢
+        by_cases hbs : badStructure V = true
+        · simp [hbs] at h
+        · simp only [hbs, Bool.false_eq_true, if_false] at h ⊢
+          cases hb : eval (nestedCfg cfg) fuel body [] av {} (Scope.bind m V ["params"]) with
+          | mk res si =>
+            rw [hb] at h
+            cases res with
+            | error e => simp at h
+            | ok li =>
+              simp only [Prod.mk.injEq, Except.ok.injEq] at h
+              obtain ⟨rfl, rfl⟩ := h
+              exact ⟨t, rfl, hrel⟩
+
 /-! ### the variables a user extracts for a submodule -/
 
 theorem strip_eq_some_iff (π' : Path) (q : Path) (c : String) (rest : Path) :
